@@ -577,7 +577,7 @@ def dict_method(ex, ref, m, args, kwargs, st, fr):
                          lambda s: ex.val(dflt, s))
     if m == 'clear':
         if h.ktype is not None:
-            h.keys = z3.Empty(z3.SeqSort(sort_of(h.ktype)))
+            h.set_empty()
         return ex.val(NONE, st)
     raise Unsupported('dict method %s' % m)
 
@@ -825,7 +825,7 @@ def havoc(ex, modifies, env, st, c):
             if isinstance(v, VRef) and isinstance(st.heap[v.ref], HDict):
                 h0 = st.heap[v.ref]
                 if h0.ktype is not None:
-                    st.heap[v.ref] = ex.fresh_dict(h0.ktype, h0.vtype, path)
+                    st.heap[v.ref] = ex.fresh_dict(h0.ktype, h0.vtype, path, st)
                 continue
             if isinstance(v, VRef) and isinstance(st.heap[v.ref], HList):
                 h0 = st.heap[v.ref]
@@ -860,7 +860,7 @@ def havoc_val(ex, cur, path, st):
         if isinstance(h, HList):
             return st.alloc(HList(h.etype, z3.Const(fresh_name(path), z3.SeqSort(sort_of(h.etype)))))
         if isinstance(h, HDict):
-            return st.alloc(ex.fresh_dict(h.ktype, h.vtype, path))
+            return st.alloc(ex.fresh_dict(h.ktype, h.vtype, path, st))
         if isinstance(h, HObj):
             return ex.fresh_obj(h.cls, path, st)
         raise Unsupported('havoc of object field %s' % path)
